@@ -12,7 +12,7 @@ mkdir -p /var/tmp/vx-seedrun
 exec 9>/var/tmp/vx-seedrun/lock; flock 9
 HEAD=$(git -C /repo rev-parse HEAD)
 if [ ! -d "$WT" ]; then git -C /repo worktree add --detach "$WT" "$HEAD" >/dev/null 2>&1 || exit 2; fi
-git -C "$WT" checkout -q -- . && git -C "$WT" checkout -q --detach "$HEAD" || exit 2
+git -C "$WT" reset -q --hard && git -C "$WT" checkout -q --detach "$HEAD" || exit 2
 git -C "$WT" apply "$D/patch.diff" 2>/dev/null || git -C "$WT" apply -3 "$D/patch.diff" 2>/dev/null || { echo "SEEDTEST $S: patch does not apply to current HEAD"; echo "$(date -u +%FT%TZ) $S patch-does-not-apply" >> /verif/seeded/results.log; exit 2; }
 res=""
 for c in $CHECKS; do
@@ -22,7 +22,7 @@ for c in $CHECKS; do
   echo "$out" | grep -A3 '^VIOLATION' | cut -c1-300 | head -16
   res="$res $c:exit=$rc:viol=$nv"
 done
-git -C "$WT" checkout -q -- .
+git -C "$WT" reset -q --hard
 echo "SEEDTEST $S:$res"
 echo "$(date -u +%FT%TZ) $S tier=${TIER:-quick} head=${HEAD:0:7}$res" >> /verif/seeded/results.log
 python3 - "$S" "$res" <<'PY'
